@@ -89,7 +89,7 @@ var All = []*Prop{
 	},
 	{
 		ID:    "C01",
-		Rules: []*core.Rule{rules.PanicPayload, rules.ASTDispatch, rules.SelfAssert, rules.NilDesc, rules.Recover, rules.Classifier, rules.ReflectSafe, rules.EscapeAgree, rules.EmitBalance, rules.PutOnStack, rules.DummyIsolate, rules.EnterSlot, rules.UnwindTarget, rules.NilProto, rules.LockScript, rules.ConstIdx},
+		Rules: []*core.Rule{rules.PanicPayload, rules.ASTDispatch, rules.SelfAssert, rules.NilDesc, rules.Recover, rules.Classifier, rules.ReflectSafe, rules.EscapeAgree, rules.EmitBalance, rules.PutOnStack, rules.DummyIsolate, rules.EnterSlot, rules.UnwindTarget, rules.NilProto, rules.LockScript, rules.ConstIdx, rules.BigAlloc, rules.RestTarget},
 		Explanation: "Clauses decided: the engine's own ways of producing a non-documented panic are closed. " +
 			"R-PANICPAYLOAD classifies every panic(x) of the module (~500) by the static type of x: a type the boundary classifiers accept (derived from exceptionFromValue's case list, the uncatchableException implementers and compileAST on each run), a Value implementer, a re-panic of a recovered/classified value, a panic made unreachable by a preceding no-return call, or an internal assertion in the audited per-function table; a new string/error panic anywhere else is reported. " +
 			"R-ASTDISPATCH: every type switch over an interface of goja/ast whose default ends in an internal diagnostic covers every concrete ast type implementing the interface (go/types), up to an audited table of node types that the grammar only places in slots handled by the parent. " +
@@ -102,6 +102,9 @@ var All = []*Prop{
 			"R-NILPROTO: every field access through a value loaded from a pointer field that script can make nil (baseObject.prototype: null prototypes; proxyObject.target/handler outside the proxy's own methods: revocation) is control-dependent on a non-nil test of the same field path of the same object. " +
 			"R-CONSTIDX: every string indexed with a constant k is control-dependent on a length test of the same string implying len > k (comparison of len(s), s != \"\", per-edge for phis, second loads of the same field path) - 50 sites, exact on today's tree; it found `\"abc\"[\"-\"]` / `typedArray[\"-\"]` crashing the host in the integer-index parsers. " +
 			"R-ASTDISPATCH also backs its exemption for *ast.PrivateIdentifier with a producer check: a parser function that returns one as a plain expression either reports a syntax error or has every caller test the result for that type. " +
+			"R-BIGALLOC: every (*big.Int).Lsh / Exp in package goja with a non-constant shift count / exponent is control-dependent on a comparison of that operand with a bound (a sign test is not a bound): `1n << 2n**63n` panicked in the allocator, out of RunString and - constant-folded - out of Compile. " +
+			"R-RESTTARGET: the parser stores into ArrayPattern.Rest / ObjectPattern.Rest only nil or the result of a function that can report a syntax error (sibling agreement of the array and object reinterpreters): `({...f()} = {})` reached the compiler's emitRef ('Compiler bug: Cannot emit reference'). " +
+			"R-ESCAPEAGREE also compares the two sides' tests against utf8.MaxRune for \\u{...}: the scanner must keep consuming exactly while the decoder does not reject (`\"\\u{10FFFF}\"` panicked). " +
 			"R-LOCKSCRIPT (see C15): no call that may run script while an engine mutex is held, and vm.captureStack is script-free - user code reached from either re-enters machinery that is mid-flight (self-deadlock under interruptLock; unbounded recursion through a throwing `name` getter).",
 		Technique:  "panic-operand typing with classifier sets derived from the code, no-return dominance, type-switch exhaustiveness over go/types, justified-assertion and nil-dereference rules with inter-procedural summaries",
 		DesignRef:  "DESIGN.md section 4, C01",
